@@ -165,7 +165,7 @@ class SeqEngine(object):
     """Executes a generated history on the real store and on the model in lock-step."""
 
     def __init__(self, prog, probes=True, hooks=None, keep=False, monitor=False, prologue=None,
-                 ro_snapshot=False):
+                 ro_snapshot=False, target=None):
         self.prog = prog
         self.probes = probes
         self.hooks = hooks or {}
@@ -173,13 +173,32 @@ class SeqEngine(object):
         self.monitor = None
         self.prologue = prologue
         self.ro_snapshot = ro_snapshot
+        self.target = target
         self.keep = keep
         self.res = RunResult()
         self.world = None
         self.model = None
+        self.repeats = 0
 
     def violation(self, props, kind, sig, detail, step):
+        if any(v.sig == sig for v in self.res.violations):
+            self.repeats += 1
+            return
         self.res.violations.append(Violation(props, kind, sig, detail, step))
+
+    def stop(self):
+        """Stop at the first disagreement that belongs to the property being checked.  A
+        disagreement that belongs to other properties only does not end the run: the model stays
+        the specification, and what the defect leads to later (an object lost, a pid no longer
+        retrievable) may well belong to this property."""
+        vs = self.res.violations
+        if not vs:
+            return False
+        if self.target is None:
+            return True
+        if any(self.target in v.props for v in vs):
+            return True
+        return len(vs) >= 6 or self.repeats >= 40
 
     def run(self):
         res = self.res
@@ -217,7 +236,7 @@ class SeqEngine(object):
                 w.run.observers.append(self.monitor)
             self.check_state(None, None, -1)
             for i, op in enumerate(self.prog["ops"]):
-                if res.violations:
+                if self.stop():
                     break
                 name = op["op"]
                 if name in self.hooks:
@@ -249,12 +268,14 @@ class SeqEngine(object):
                     self.violation(props, "outcome", "outcome:%s:%s->%s" % (name, _expsig(exp), _outsig(out)),
                                    {"op": op, "expected": exp.describe(), "got": [out[0], _jsonable(out[1])],
                                     "extra": _jsonable(extra)}, i)
-                    break
+                    if self.stop():
+                        break
                 st = extra.get("stream")
                 if st is not None and name in ("store", "smeta"):
                     if st.get("closed") or st.get("tell") != st.get("off") or st.get("error"):
                         self.violation({"C01"}, "stream", "stream:%s" % name, {"op": op, "stream": st}, i)
-                        break
+                        if self.stop():
+                            break
                 self.check_state(op, exp, i)
 
     def exec(self, op):
@@ -316,7 +337,8 @@ class SeqEngine(object):
             self.violation(props, "alpha", "alpha:%s:%s" % (op["op"] if op else "init",
                                                            ",".join(sorted(set(d[0] for d in diffs)))),
                            {"op": op, "diffs": diffs[:6]}, i)
-            return
+            if self.stop():
+                return
         if not self.probes:
             return
         # look-ups through the API: every pid of the alphabet
@@ -332,7 +354,8 @@ class SeqEngine(object):
                 self.violation(props, "probe", "probe:retrieve:%s->%s" % (_expsig(pexp), _outsig(out)),
                                {"after": op, "pid": pid, "expected": pexp.describe(),
                                 "got": [out[0], _jsonable(out[1])]}, i)
-                return
+                if self.stop():
+                    return
         fmts = [None] + list(range(len(w.formats)))
         for pi, pid in enumerate(w.pids):
             for f in fmts:
@@ -347,8 +370,11 @@ class SeqEngine(object):
                     self.violation(props, "probe", "probe:rmeta:%s->%s" % (_expsig(pexp), _outsig(out)),
                                    {"after": op, "pid": pid, "fmt": f, "expected": pexp.describe(),
                                     "got": [out[0], _jsonable(out[1])]}, i)
-                    return
+                    if self.stop():
+                        return
         # the look-ups themselves must not have changed anything (C17: read-only calls)
+        if diffs:
+            return  # the read-only comparison below needs a state that agreed to begin with
         a2 = w.alpha()
         if _alpha_key(a2) != _alpha_key(a):
             self.violation({"C17"}, "probe", "probe:readonly-changed", {"after": op}, i)
